@@ -329,7 +329,11 @@ impl<'a, 'tcx> Ex<'a, 'tcx> {
                         AssertKind::OverflowNeg(a) => ("OverflowNeg".into(), vec![self.operand(a)]),
                         AssertKind::DivisionByZero(a) => ("DivisionByZero".into(), vec![self.operand(a)]),
                         AssertKind::RemainderByZero(a) => ("RemainderByZero".into(), vec![self.operand(a)]),
-                        other => (format!("{other:?}"), vec![]),
+                        other => {
+                            let d = format!("{other:?}");
+                            let short: String = d.chars().take_while(|c| c.is_alphanumeric()).collect();
+                            (short, vec![])
+                        }
                     };
                     J::O(vec![
                         ("k", s("assert")),
@@ -362,6 +366,7 @@ struct MatchV<'tcx> {
     tcx: TyCtxt<'tcx>,
     typeck: &'tcx ty::TypeckResults<'tcx>,
     out: Vec<J>,
+    ifs: Vec<J>,
 }
 
 impl<'tcx> MatchV<'tcx> {
@@ -419,6 +424,134 @@ impl<'tcx> MatchV<'tcx> {
             other => J::O(vec![("k", s("other")), ("dbg", s(format!("{other:?}").chars().take(80).collect::<String>()))]),
         }
     }
+    fn span4(&self, sp: Span) -> J {
+        let sm = self.tcx.sess.source_map();
+        let lo = sm.lookup_char_pos(sp.lo());
+        let hi = sm.lookup_char_pos(sp.hi());
+        J::A(vec![
+            J::N(lo.line as i128),
+            J::N(lo.col.0 as i128),
+            J::N(hi.line as i128),
+            J::N(hi.col.0 as i128),
+        ])
+    }
+    fn calls_in(&self, e: &'tcx hir::Expr<'tcx>) -> J {
+        let mut cc = CallCollect { mv: self, calls: vec![] };
+        cc.visit_expr(e);
+        J::A(cc.calls)
+    }
+    fn hexpr(&self, e: &'tcx hir::Expr<'tcx>, depth: usize) -> J {
+        use hir::ExprKind as K;
+        if depth == 0 {
+            return J::O(vec![("k", s("deep")), ("snip", s(self.snippet(e.span, 80)))]);
+        }
+        let d = depth - 1;
+        match &e.kind {
+            K::Path(q) => {
+                let r = match self.typeck.qpath_res(q, e.hir_id) {
+                    Res::Local(hid) => format!("local:{}", self.tcx.hir_name(hid)),
+                    Res::Def(_, did) => self.tcx.def_path_str(did),
+                    Res::SelfCtor(did) => self.tcx.def_path_str(did),
+                    other => format!("{other:?}"),
+                };
+                J::O(vec![("k", s("path")), ("res", s(r))])
+            }
+            K::Lit(l) => J::O(vec![("k", s("lit")), ("v", s(format!("{:?}", l.node)))]),
+            K::Binary(op, l, r) => J::O(vec![
+                ("k", s("bin")),
+                ("op", s(format!("{:?}", op.node))),
+                ("l", self.hexpr(l, d)),
+                ("r", self.hexpr(r, d)),
+            ]),
+            K::Unary(op, x) => J::O(vec![
+                ("k", s("un")),
+                ("op", s(format!("{op:?}"))),
+                ("e", self.hexpr(x, d)),
+            ]),
+            K::Call(f, args) => J::O(vec![
+                ("k", s("call")),
+                ("f", self.hexpr(f, d)),
+                ("args", J::A(args.iter().map(|a| self.hexpr(a, d)).collect())),
+            ]),
+            K::MethodCall(seg, recv, args, _) => J::O(vec![
+                ("k", s("mcall")),
+                ("name", s(seg.ident.name.to_string())),
+                (
+                    "def",
+                    self.typeck
+                        .type_dependent_def_id(e.hir_id)
+                        .map(|d| s(self.tcx.def_path_str(d)))
+                        .unwrap_or(J::Null),
+                ),
+                ("recv", self.hexpr(recv, d)),
+                ("args", J::A(args.iter().map(|a| self.hexpr(a, d)).collect())),
+            ]),
+            K::Field(x, ident) => J::O(vec![
+                ("k", s("field")),
+                ("e", self.hexpr(x, d)),
+                ("name", s(ident.name.to_string())),
+            ]),
+            K::AddrOf(_, _, x) => J::O(vec![("k", s("ref")), ("e", self.hexpr(x, d))]),
+            K::DropTemps(x) => self.hexpr(x, depth),
+            K::Cast(x, _) => J::O(vec![
+                ("k", s("cast")),
+                ("e", self.hexpr(x, d)),
+                ("ty", s(format!("{}", self.typeck.expr_ty(e)))),
+            ]),
+            K::Tup(es) => J::O(vec![
+                ("k", s("tup")),
+                ("es", J::A(es.iter().map(|a| self.hexpr(a, d)).collect())),
+            ]),
+            K::Array(es) => J::O(vec![
+                ("k", s("array")),
+                ("es", J::A(es.iter().map(|a| self.hexpr(a, d)).collect())),
+            ]),
+            K::Index(a, b, _) => J::O(vec![
+                ("k", s("index")),
+                ("e", self.hexpr(a, d)),
+                ("i", self.hexpr(b, d)),
+            ]),
+            K::Struct(q, fields, _) => J::O(vec![
+                ("k", s("struct")),
+                ("path", s(self.qres(q, e.hir_id))),
+                (
+                    "fields",
+                    J::A(fields
+                        .iter()
+                        .map(|f| J::A(vec![s(f.ident.name.to_string()), self.hexpr(f.expr, d)]))
+                        .collect()),
+                ),
+            ]),
+            K::Block(b, _) => {
+                if b.stmts.is_empty() {
+                    match b.expr {
+                        Some(x) => self.hexpr(x, depth),
+                        None => J::O(vec![("k", s("unit"))]),
+                    }
+                } else {
+                    J::O(vec![
+                        ("k", s("block")),
+                        ("n", J::N(b.stmts.len() as i128)),
+                        ("tail", b.expr.map(|x| self.hexpr(x, d)).unwrap_or(J::Null)),
+                        ("snip", s(self.snippet(e.span, 80))),
+                    ])
+                }
+            }
+            K::Let(l) => J::O(vec![
+                ("k", s("let")),
+                ("pat", self.pat(l.pat)),
+                ("init", self.hexpr(l.init, d)),
+            ]),
+            K::Ret(x) => J::O(vec![
+                ("k", s("ret")),
+                ("e", x.map(|x| self.hexpr(x, d)).unwrap_or(J::Null)),
+            ]),
+            K::Match(..) => J::O(vec![("k", s("match")), ("span", self.span4(e.span))]),
+            K::If(..) => J::O(vec![("k", s("if")), ("span", self.span4(e.span))]),
+            K::Closure(..) => J::O(vec![("k", s("closure")), ("snip", s(self.snippet(e.span, 80)))]),
+            _ => J::O(vec![("k", s("other")), ("snip", s(self.snippet(e.span, 80)))]),
+        }
+    }
     fn snippet(&self, sp: Span, max: usize) -> String {
         let t = self.tcx.sess.source_map().span_to_snippet(sp).unwrap_or_default();
         t.chars().take(max).collect()
@@ -459,7 +592,10 @@ impl<'tcx> Visitor<'tcx> for MatchV<'tcx> {
                 aj.push(J::O(vec![
                     ("pat", self.pat(arm.pat)),
                     ("guard", arm.guard.map(|g| s(self.snippet(g.span, 200))).unwrap_or(J::Null)),
+                    ("guard_tree", arm.guard.map(|g| self.hexpr(g, 6)).unwrap_or(J::Null)),
                     ("body", s(self.snippet(arm.body.span, 160))),
+                    ("body_tree", self.hexpr(arm.body, 5)),
+                    ("body_span", self.span4(arm.body.span)),
                     ("calls", J::A(calls)),
                     ("at", loc(self.tcx, arm.span)),
                 ]));
@@ -468,8 +604,23 @@ impl<'tcx> Visitor<'tcx> for MatchV<'tcx> {
                 ("at", loc(self.tcx, e.span)),
                 ("src", s(format!("{src:?}"))),
                 ("scrut", s(self.snippet(scrut.span, 120))),
+                ("scrut_tree", self.hexpr(scrut, 5)),
                 ("scrut_ty", s(format!("{}", self.typeck.expr_ty(scrut)))),
+                ("span", self.span4(e.span)),
                 ("arms", J::A(aj)),
+            ]));
+        }
+        if let hir::ExprKind::If(cond, then, els) = &e.kind {
+            self.ifs.push(J::O(vec![
+                ("at", loc(self.tcx, e.span)),
+                ("span", self.span4(e.span)),
+                ("cond", self.hexpr(cond, 8)),
+                ("then_calls", self.calls_in(then)),
+                ("then_span", self.span4(then.span)),
+                ("then_tree", self.hexpr(then, 4)),
+                ("else_calls", els.map(|x| self.calls_in(x)).unwrap_or(J::Null)),
+                ("else_span", els.map(|x| self.span4(x.span)).unwrap_or(J::Null)),
+                ("else_tree", els.map(|x| self.hexpr(x, 4)).unwrap_or(J::Null)),
             ]));
         }
         intravisit::walk_expr(self, e);
@@ -498,7 +649,7 @@ impl rustc_driver::Callbacks for Cb {
             let body: &mir::Body<'tcx> = tcx.optimized_mir(def.to_def_id());
             let ex = Ex { tcx, body, def };
             let typeck = tcx.typeck(def);
-            let mut mv = MatchV { tcx, typeck, out: vec![] };
+            let mut mv = MatchV { tcx, typeck, out: vec![], ifs: vec![] };
             let hbody = tcx.hir_body_owned_by(def);
             mv.visit_expr(hbody.value);
             let is_unsafe = if matches!(kind, DefKind::Closure) {
@@ -506,6 +657,15 @@ impl rustc_driver::Callbacks for Cb {
             } else {
                 tcx.fn_sig(def.to_def_id()).skip_binder().safety().is_unsafe()
             };
+            let vis = if matches!(kind, DefKind::Closure) {
+                "closure".to_string()
+            } else {
+                format!("{:?}", tcx.visibility(def.to_def_id()))
+            };
+            let parent = tcx
+                .opt_parent(def.to_def_id())
+                .map(|p| tcx.def_path_str(p))
+                .unwrap_or_default();
             fns.push(J::O(vec![
                 ("id", s(tcx.def_path_str(def.to_def_id()))),
                 ("kind", s(format!("{kind:?}"))),
@@ -513,6 +673,9 @@ impl rustc_driver::Callbacks for Cb {
                 ("at", loc(tcx, tcx.def_span(def.to_def_id()))),
                 ("mir", ex.body_json()),
                 ("matches", J::A(mv.out)),
+                ("ifs", J::A(mv.ifs)),
+                ("vis", s(vis)),
+                ("parent", s(parent)),
             ]));
         }
         // consts and statics
@@ -533,6 +696,29 @@ impl rustc_driver::Callbacks for Cb {
                                 let bytes = inner.inspect_with_uninit_and_ptr_outside_interpreter(0..n);
                                 let hex: String = bytes.iter().map(|b| format!("{b:02x}")).collect();
                                 entry.push(("bytes", s(hex)));
+                                if let ty::Adt(adt, gargs) = ty.kind() {
+                                    if adt.is_struct() {
+                                        let env = ty::TypingEnv::post_analysis(tcx, did);
+                                        if let Ok(layout) = tcx.layout_of(env.as_query_input(ty)) {
+                                            let mut fl = Vec::new();
+                                            for (i, f) in adt.non_enum_variant().fields.iter().enumerate() {
+                                                let fty = f.ty(tcx, gargs);
+                                                let off = layout.fields.offset(i).bytes();
+                                                let sz = tcx
+                                                    .layout_of(env.as_query_input(fty))
+                                                    .map(|l| l.size.bytes())
+                                                    .unwrap_or(0);
+                                                fl.push(J::A(vec![
+                                                    s(f.name.to_string()),
+                                                    s(format!("{fty}")),
+                                                    J::N(off as i128),
+                                                    J::N(sz as i128),
+                                                ]));
+                                            }
+                                            entry.push(("layout", J::A(fl)));
+                                        }
+                                    }
+                                }
                             }
                         }
                     }
@@ -552,8 +738,69 @@ impl rustc_driver::Callbacks for Cb {
                 _ => {}
             }
         }
+        // ADTs of the crate
+        let mut adts = Vec::new();
+        for id in tcx.hir_crate_items(()).definitions() {
+            let did = id.to_def_id();
+            if !matches!(tcx.def_kind(id), DefKind::Struct | DefKind::Enum | DefKind::Union) {
+                continue;
+            }
+            let adt = tcx.adt_def(did);
+            let mut variants = Vec::new();
+            let discrs: Vec<(rustc_abi::VariantIdx, u128)> = if adt.is_enum() {
+                adt.discriminants(tcx).map(|(vi, d)| (vi, d.val)).collect()
+            } else {
+                vec![]
+            };
+            for (vi, v) in adt.variants().iter_enumerated() {
+                let d = discrs.iter().find(|(i, _)| *i == vi).map(|(_, d)| *d as i128).unwrap_or(0);
+                let fields: Vec<J> = v
+                    .fields
+                    .iter()
+                    .map(|f| {
+                        let fty = tcx.type_of(f.did).instantiate_identity().skip_norm_wip();
+                        J::A(vec![s(f.name.to_string()), s(format!("{fty}")), s(format!("{:?}", f.vis))])
+                    })
+                    .collect();
+                variants.push(J::O(vec![
+                    ("name", s(v.name.to_string())),
+                    ("discr", J::N(d)),
+                    ("fields", J::A(fields)),
+                ]));
+            }
+            adts.push(J::O(vec![
+                ("id", s(tcx.def_path_str(did))),
+                ("kind", s(format!("{:?}", tcx.def_kind(id)))),
+                ("vis", s(format!("{:?}", tcx.visibility(did)))),
+                ("variants", J::A(variants)),
+                ("at", loc(tcx, tcx.def_span(did))),
+            ]));
+        }
+        // trait impls of the crate (self type, trait)
+        let mut impls = Vec::new();
+        for id in tcx.hir_crate_items(()).definitions() {
+            let did = id.to_def_id();
+            if let DefKind::Impl { of_trait } = tcx.def_kind(id) {
+                let self_ty = tcx.type_of(did).instantiate_identity().skip_norm_wip();
+                let tr = if of_trait {
+                    let tr = tcx.impl_trait_ref(did).instantiate_identity().skip_norm_wip();
+                    tcx.def_path_str(tr.def_id)
+                } else {
+                    String::new()
+                };
+                impls.push(J::O(vec![
+                    ("self", s(format!("{self_ty}"))),
+                    ("trait", s(tr)),
+                    ("at", loc(tcx, tcx.def_span(did))),
+                ]));
+            }
+        }
         let doc = J::O(vec![
             ("crate", s(krate.clone())),
+            ("nonce", s(std::env::var("NSX_NONCE").unwrap_or_default())),
+            ("debug_assertions", J::B(tcx.sess.opts.debug_assertions)),
+            ("adts", J::A(adts)),
+            ("impls", J::A(impls)),
             ("fns", J::A(fns)),
             ("consts", J::A(consts)),
             ("statics", J::A(statics)),
